@@ -1,6 +1,7 @@
 package checks
 
 import (
+	"errors"
 	"fmt"
 	"strings"
 	"time"
@@ -296,14 +297,18 @@ type C18ScriptCase struct {
 	Tx    []string `json:"tx"`    // per transaction, per recipient one letter: 0=250 1=251 2=252 (accepted) r=550 (refused at RCPT)
 	Final []string `json:"final"` // per transaction, per ACCEPTED recipient: o (250) or p (550) after the end of data
 	UseCB bool     `json:"use_cb"`
+	// RefuseData: the server answers the first DATA command of every transaction with that code (451, 503, 554); the
+	// client then issues DATA again in the same transaction - whose recipients are still the ones accepted before
+	RefuseData int `json:"refuse_data,omitempty"`
 }
 
 func evalC18Script(c C18ScriptCase) *h.Finding {
 	var f *h.Finding
-	desc := fmt.Sprintf("scripted LMTP server: recipients=%v final=%v callback=%t", c.Tx, c.Final, c.UseCB)
+	desc := fmt.Sprintf("scripted LMTP server: recipients=%v final=%v callback=%t first-DATA-refused-with=%d", c.Tx, c.Final, c.UseCB, c.RefuseData)
 	tx := -1
 	var accepted []string
 	inData := false
+	dataTries := map[int]int{}
 	script := func(line string, n int) []byte {
 		if inData {
 			if line != "." {
@@ -356,6 +361,10 @@ func evalC18Script(c C18ScriptCase) *h.Finding {
 			}
 			return []byte("550 5.1.1 no such user\r\n")
 		case strings.HasPrefix(up, "DATA"):
+			if c.RefuseData != 0 && dataTries[tx] == 0 {
+				dataTries[tx]++
+				return []byte(fmt.Sprintf("%d %d.3.0 not right now\r\n", c.RefuseData, c.RefuseData/100))
+			}
 			inData = true
 			return []byte("354 go ahead\r\n")
 		case strings.HasPrefix(up, "QUIT"):
@@ -404,16 +413,27 @@ func evalC18Script(c C18ScriptCase) *h.Finding {
 					Close() error
 				}
 				var err error
-				if c.UseCB {
-					w, err = cl.LMTPData(func(r string, st *smtp.SMTPError) {
-						g := got{rcpt: r, ok: st == nil}
-						if st != nil {
-							g.code = st.Code
-						}
-						calls = append(calls, g)
-					})
-				} else {
-					w, err = cl.Data()
+				open := func() {
+					if c.UseCB {
+						w, err = cl.LMTPData(func(r string, st *smtp.SMTPError) {
+							g := got{rcpt: r, ok: st == nil}
+							if st != nil {
+								g.code = st.Code
+							}
+							calls = append(calls, g)
+						})
+					} else {
+						w, err = cl.Data()
+					}
+				}
+				open()
+				if c.RefuseData != 0 {
+					var se *smtp.SMTPError
+					if !errors.As(err, &se) || se.Code != c.RefuseData {
+						f = h.F("c18s-data-refusal", "%s: the server answered DATA with %d; the client returned %v", desc, c.RefuseData, err)
+						return
+					}
+					open() // once more, in the same transaction
 				}
 				if err != nil {
 					f = h.F("c18s-data", "%s: DATA: %v", desc, err)
@@ -492,6 +512,15 @@ func c18ScriptCases(maxTx int) []C18ScriptCase {
 			out = append(out, C18ScriptCase{Tx: []string{rc}, Final: []string{fin}, UseCB: cb},
 				C18ScriptCase{Tx: []string{rc, "01"}, Final: []string{fin, "op"}, UseCB: cb},
 				C18ScriptCase{Tx: []string{rc, rc}, Final: []string{fin, reverse(fin)}, UseCB: cb})
+		}
+	}
+	// DATA refused once and issued again in the same transaction, followed by another transaction
+	for _, code := range []int{451, 503, 554} {
+		for _, cb := range []bool{true, false} {
+			for _, t := range []struct{ rc, fin string }{{"0", "o"}, {"01", "op"}, {"0r2", "po"}, {"012", "opo"}} {
+				out = append(out, C18ScriptCase{Tx: []string{t.rc}, Final: []string{t.fin}, UseCB: cb, RefuseData: code},
+					C18ScriptCase{Tx: []string{t.rc, "01"}, Final: []string{t.fin, "po"}, UseCB: cb, RefuseData: code})
+			}
 		}
 	}
 	for _, a := range txs {
